@@ -228,13 +228,18 @@ theorem iso_cap_integrated_pos (A : System.Arith R) (s0 : St R) (rs : List (Stri
   exact this
 
 /-- **circuit breaker** (step form): unless breakers are being loaded, every integrated op moves the breaker component by
-    zero or one step **of the breaker model** (`cbOp`: clock steps, the entries that reach the breaker slot, all exits with
-    the error the entry's context carries), and the listener log grows by that step's callbacks. -/
+    zero or one move **of the breaker model** (`cbMove` / `cbApply`: clock steps, `CB.doEntry` for the entries that reach the
+    breaker slot, `CB.doExit` for all exits with the error the entry's context carries — each of them a `CB.step`,
+    `cb_move_is_model_step`), and the listener log grows by that move's callbacks. -/
 theorem cb_projection (A : System.Arith R) (s : St R) (o : Pipe.Op R) (hl : ∀ rs, o = .loadCb rs → s.cbLoaded = true) :
-    (step A s o).1.cb = (match cbOp A s o with | some c => (CB.step CB.laOps s.cb c).1 | none => s.cb) ∧
+    (step A s o).1.cb = (match cbMove A s o with | some m => (cbApply s.cb m).1 | none => s.cb) ∧
     (o ≠ .log → (step A s o).1.evs =
-      s.evs ++ (match cbOp A s o with | some c => (CB.step CB.laOps s.cb c).2.evs | none => [])) :=
+      s.evs ++ (match cbMove A s o with | some m => (cbApply s.cb m).2.evs | none => [])) :=
   step_cb A s o hl
+
+/-- a move is a step of the breaker model's own op language (whatever batch count the op carries: C03 `batch_irrelevant`) -/
+theorem cb_move_is_model_step (c : CB.Sys (Sentinel.LA.Arr CB.Cnt)) (m : CbMove) :
+    cbApply c m = CB.step CB.laOps c m.toOp := cbApply_eq_step c m
 
 /-- **open_rejects_until on the integrated chain** (C03 `open_rejects_until_history` transferred).  Once a breaker `k` of
     resource `res` is open with deadline `D`, then along **any** integrated continuation whose clock readings stay below `D`
